@@ -38,6 +38,25 @@ type Store struct {
 
 func (s *Store) Height() int64 { return int64(len(s.blocks)) }
 
+// IndexAll feeds every recorded block to idx, in order (what the indexer service does on a healthy node).
+func (s *Store) IndexAll(idx interface {
+	IndexBlock(*cmttypes.Block, []*abci.ExecTxResult) error
+}) error {
+	for h := int64(1); h <= s.Height(); h++ {
+		sb := s.at(h)
+		if err := idx.IndexBlock(sb.rb.Block, sb.rr.TxsResults); err != nil {
+			return err
+		}
+	}
+	return nil
+}
+
+// Recorded returns the transactions and the consensus results of block h.
+func (s *Store) Recorded(h int64) ([][]byte, *abci.ResponseFinalizeBlock) {
+	sb := s.at(h)
+	return sb.req.Txs, sb.res
+}
+
 func (s *Store) at(h int64) *storedBlock {
 	if h < 1 || h > int64(len(s.blocks)) {
 		return nil
@@ -105,12 +124,12 @@ type FakeClient struct {
 	app queryApp
 	qmu sync.Mutex
 
-	mu     sync.Mutex
-	head   int64
-	subs   map[string]chan coretypes.ResultEvent
-	Calls  sync.Map // method name -> *atomic.Int64
-	Status_ atomic.Int64
-	faults sync.Map // "method/height" -> *atomic.Int32: number of transient errors still to be answered
+	mu           sync.Mutex
+	head         int64
+	subs         map[string]chan coretypes.ResultEvent
+	Calls        sync.Map // method name -> *atomic.Int64
+	Status_      atomic.Int64
+	faults       sync.Map // "method/height" -> *atomic.Int32: number of transient errors still to be answered
 	FaultsServed atomic.Int64
 }
 
